@@ -29,6 +29,7 @@ class World:
         os.makedirs(self.repo)
         os.makedirs(self.home)
         self.prev_files = None
+        self.inplace = False   # edits rewrite files in place (same inode) instead of replacing them
         self.ninv = 0
         self.nclean = 0
         self.clean_memo = {}
@@ -40,7 +41,7 @@ class World:
 
     # -- repository -------------------------------------------------------------------------------
     def write(self, spec):
-        self.prev_files = rs.materialise(spec, self.repo, self.log, self.prev_files)
+        self.prev_files = rs.materialise(spec, self.repo, self.log, self.prev_files, inplace=self.inplace)
         return self.prev_files
 
     def digest(self, spec):
@@ -192,8 +193,20 @@ def op_edit_content(rng, spec):
     cands = [(p, f) for p in sorted(spec["pkgs"]) for f in sorted(spec["pkgs"][p]["files"])]
     if not cands:
         return None
-    p, f = rng.choice(cands)
+    # editing the same file repeatedly, and files that reach their consumers through a filegroup, are
+    # over-represented: hash records attached to an inode survive the first edit, not the second
+    again = [c for c in cands if list(c) in spec.get("_edited", [])]
+    viafg = [(p, s[2:]) for p, t in rs.all_targets(spec) if t["kind"] == "filegroup" for s in t["srcs"] if s.startswith("f:")]
+    if again and rng.chance(0.5):
+        p, f = rng.choice(again)
+    elif viafg and rng.chance(0.4):
+        p, f = rng.choice(viafg)
+    else:
+        p, f = rng.choice(cands)
     spec["pkgs"][p]["files"][f] = "edited %d\n" % rng.intn(100000)
+    spec.setdefault("_edited", [])
+    if [p, f] not in spec["_edited"]:
+        spec["_edited"].append([p, f])
     return "edit %s/%s" % (p, f)
 
 
